@@ -166,6 +166,7 @@ func (e *Environment) SaveGlobals(to io.Writer, maxValueLen int) (int, error) {
 				if err != nil {
 					return n, err
 				}
+				verifCrashPoint("binding-written")
 				n++
 				continue
 			}
@@ -182,6 +183,7 @@ func (e *Environment) SaveGlobals(to io.Writer, maxValueLen int) (int, error) {
 		if err != nil {
 			return n, err
 		}
+		verifCrashPoint("binding-written")
 		n++
 	}
 	return n, nil
